@@ -26,6 +26,7 @@ class Story:
         if shape.get('real_odb', False):
             self.sim.real_txids = True
         self.fs.sched.window = shape.get('window')
+        self.fs.sched.hold_mode = shape.get('hold', False)
         self.main = []               # the daemon's current chain (RBlocks)
         self.mp = {}                 # name -> prepared RTx
         self.requests = []           # outcomes of client requests
@@ -187,7 +188,7 @@ class Story:
         fs.sched.deviations = 0
         fs.quiesce(3)
         self.eng.note('schedule deviations: ' + ' | '.join(
-            t for t in fs.sched.trace if t.startswith(('postpone:', 'event:'))))
+            t for t in fs.sched.trace if t.startswith(('postpone', 'event:'))))
 
     def apply_noop(self):
         pass
